@@ -163,6 +163,9 @@ impl HistoryResult {
     fn seen(&mut self, set: &str, v: impl Into<String>) {
         self.sets.entry(set.to_string()).or_default().insert(v.into());
     }
+    pub fn add_pub(&mut self, step: usize, fs: Vec<Finding>) {
+        self.add(step, fs)
+    }
     fn add(&mut self, step: usize, mut fs: Vec<Finding>) {
         for f in fs.iter_mut() {
             f.detail = json!({"step": step, "what": f.detail});
@@ -201,9 +204,14 @@ type R<T> = Result<T, SessionError>;
 
 impl Runner {
     pub fn new(profile: Profile, seed: u64) -> R<Runner> {
+        Self::new_opt(profile, seed, false)
+    }
+
+    /// `serve`: the child also runs the real serve loops and the HTTP API on <dir>/sock
+    pub fn new_opt(profile: Profile, seed: u64, serve: bool) -> R<Runner> {
         let dir = work_dir(&format!("e1-{}", profile.name));
         let now0 = real_now_ms();
-        let sess = Session::spawn_with(&dir, false, &[("XSMON_CLOCK", &now0.to_string())])?;
+        let sess = Session::spawn_with(&dir, serve, &[("XSMON_CLOCK", &now0.to_string())])?;
         let mut r = Runner {
             profile,
             rng: Rng::new(seed),
@@ -223,8 +231,25 @@ impl Runner {
         // two context ids that are never registered; one numerically adjacent to a real one is added later
         r.bogus_ctxs.push(Scru128Id::from(0x0123_4567_89ab_cdef_0123_4567_89ab_cdefu128).to_u128());
         r.bogus_ctxs.push(1u128);
+        if serve {
+            // frames the server wrote on start-up (xs.start) are part of the history
+            let v = r.call(json!({"op": "read_sync"}))?;
+            let frames: Vec<Frame> = serde_json::from_value(v["frames"].clone()).unwrap_or_default();
+            for f in frames {
+                r.model.on_append(&f);
+            }
+        }
         r.start_follower()?;
         Ok(r)
+    }
+
+    /// record an append that was acknowledged through another front end (HTTP, scripts)
+    pub fn note_external_append(&mut self, stored: &Frame) {
+        self.model.on_append(stored);
+        self.era_appends.push((stored.id.to_u128(), frame_digest(stored)));
+        if stored.topic == "xs.context" && stored.context_id == ZERO_CONTEXT {
+            self.ctxs.push(stored.id.to_u128());
+        }
     }
 
     pub fn call(&mut self, op: Value) -> R<Value> {
